@@ -71,6 +71,22 @@ reg(
   "step() and step1/step2 use different (fused vs separate) factor/solve kernels, so that relation is judged up to round-off, not bitwise.",
 )
 
+reg(
+  "C13",
+  "property-based model-based testing (Hypothesis, generated histories and reset masks) against fresh make_data, a never-reset twin and MuJoCo mj_resetData",
+  "Models with na>nu, actuator/sensor delays, mocap, inactive equalities, userdata; 1-4 worlds; generated step/edit histories; reset_data with None/bool/int masks "
+  "(all, none, single, random); selected worlds must equal a fresh Data field-by-field (incl. act, history) and then follow the fresh trajectory bit-for-bit; "
+  "unselected worlds must keep state, contacts and trajectory of a twin that was never reset; history also compared with MuJoCo.",
+  "Same nworld/capacities across compared Data (bitwise oracle); one recorded finding (partial masks corrupt the shared contact buffer) is reported as KNOWN-FINDING.",
+)
+reg(
+  "C25",
+  "property-based metamorphic testing (Hypothesis): iteration-limit sweep and companion-world invariance of the constraint solver",
+  "Batches of 2-4 worlds of different difficulty; reference with limit 200 gives N*_w; limits 0..max N*+2 and graph_conditional on/off: niter<=L, ITERATIONS bit "
+  "exactly when the limit cut a converging solve short, converged worlds bit-identical to the reference; replacing the other worlds leaves world 0 bit-identical.",
+  "At L=0 only niter==0 is judged; worlds that do not converge within 200 iterations are only checked for niter<=L.",
+)
+
 NOT_APPLICABLE = {}
 
 
